@@ -1285,6 +1285,76 @@ def c18_delta_bitmap(env, ob):
     return trace_obligation(env, ob, ctx, res, bad, "write_delta does not receive the complete old value set", cuts_ok=True)
 
 
+@obligation(id="C18.every_change_entry_moves_its_offset", also="C04", funcs="TupleReader::parse_for_snapshot",
+            bounds="every path of parse_for_snapshot through one delta with one change entry (loops unrolled once); decoding "
+                   "uninterpreted", native="c18_reader_steps_back_two_versions")
+def c18_change_offsets(env, ob):
+    """Deltas are reverse diffs: going back from the newest version, EVERY change entry that is walked over re-points the
+    column at the older value - whether or not the version reached by this delta is the one the snapshot sees.  Skipping
+    the re-pointing for invisible versions returns a row that mixes values of two versions once the reader has to step
+    back more than one version."""
+    inline = {r"^Snapshot::is_committed_before_snapshot$": (COORD, "is_committed_before_snapshot", None),
+              r"^Snapshot::xid$": (COORD, "xid", r"&Snapshot\) -> u64"),
+              r"TupleLayout::is_valid_for_snapshot$": ("storage/tuple.rs", "is_valid_for_snapshot", None)}
+    ctx, f, args, res = explore(env, "storage/tuple.rs", "parse_for_snapshot", inline=inline, loop_bound=1,
+                                pure=[r"DeltaHeader::xmin$", r"DeltaHeader::version$"])
+
+    def bad(path, rv):
+        if path.panics:
+            return None
+        dh = idx(path, r"DeltaHeader::read_from$")
+        if not dh:
+            return None
+        de = [i for i in idx(path, r"DataTypeKind::deserialize$") if i > dh[0]]
+        if not de:
+            return None
+        st = [i for i in idx(path, r"<Vec<usize> as IndexMut<usize>>::index_mut$") if dh[0] < i < de[0]]
+        if not st:
+            return ("change_entry_walked_over_without_re_pointing_the_column", None)
+        return None
+    if not any(idx(p, r"DeltaHeader::read_from$") and idx(p, r"DataTypeKind::deserialize$") for p, rv in res):
+        return result(ob, "inconclusive", reason="vacuity: no path walks over a non-null change entry", paths=len(res))
+    return trace_obligation(env, ob, ctx, res, bad, "parse_for_snapshot skips the offset update of a change entry", cuts_ok=True)
+
+
+@obligation(id="C18.assigned_columns_get_the_assigned_value", also="C05", funcs="Tuple::compute_values",
+            bounds="every path of Tuple::compute_values through one column (loop unrolled once); callees uninterpreted",
+            native="c18_update_to_a_value_equal_as_double")
+def c18_assigned(env, ob):
+    """For every column named in an UPDATE's assignment map the new version holds (a clone of) the ASSIGNED value and the
+    delta saves the old one - unconditionally.  Any shortcut that decides 'nothing changed' by comparing values goes
+    through DataType's equality, which compares numerics as f64: 2^53 and 2^53 + 1, or 0.0 and -0.0, are 'equal'."""
+    ctx, f, args, res = explore(env, "storage/tuple.rs", "compute_values", loop_bound=1)
+    newvals = None
+
+    def bad(path, rv):
+        if path.panics:
+            return None
+        g = idx(path, r"HashMap::<usize, types::DataType>::get::<usize>$")
+        if not g:
+            return None
+        ge = path.events[g[0]]
+        some = f"(= {ge['ret'].get_disc().term} {bvconst(1, 64)})"
+        if some not in path.pc:
+            return None
+        caps = [e for e in path.events[:g[0]] if callee_is(e, r"Vec::<types::DataType>::with_capacity$")]
+        target = mirsmt.describe(caps[0]["ret"]) if caps else None      # new_values is the first vector allocated
+        pushes = [e for e in path.events[g[0]:] if callee_is(e, r"Vec::<types::DataType>::push$")
+                  and (target is None or e["argdesc"][0] == "&" + target)]
+        clones = {mirsmt.describe(e["ret"]) for e in path.events[g[0]:] if callee_is(e, r"<types::DataType as Clone>::clone$")
+                  and ge["ret"].name in e["argdesc"][0]}
+        if not pushes:
+            return ("assigned_column_gets_no_value_in_the_new_version", None)
+        if pushes[0]["argdesc"][1] not in clones:
+            return ("assigned_column_keeps_its_old_value", None)
+        if not [e for e in path.events[g[0]:] if callee_is(e, r"Vec::<\(u8, types::DataType\)>::push$")]:
+            return ("old_value_of_an_assigned_column_not_saved_in_the_delta", None)
+        return None
+    if not any(idx(p, r"HashMap::<usize, types::DataType>::get::<usize>$") for p, rv in res):
+        return result(ob, "inconclusive", reason="vacuity: compute_values never looks a column up in the assignment map", paths=len(res))
+    return trace_obligation(env, ob, ctx, res, bad, "compute_values does not give an assigned column the assigned value", cuts_ok=True)
+
+
 @obligation(id="C18.older_deltas_stay_where_readers_look", also="C13,C16", funcs="Tuple::add_version_with",
             bounds="every path of add_version_with that carries older deltas over (loops unrolled once); callees uninterpreted",
             native="c18_two_updates_then_walk_the_chain")
